@@ -289,7 +289,7 @@ def run(ctx: Ctx):
     base = ctx.rng("c15").randrange(1 << 30)
 
     s = Stream(ctx, "(i) histories on a shared evaluable")
-    res = pmap(history_worker, [base + i for i in range(300 if quick else 6000)], ctx.jobs, chunk=10)
+    res = pmap(history_worker, [base + i for i in range(ctx.size(300, 6000))], ctx.jobs, chunk=10)
     lines, results = [], []
     for j, (n, fails, problems, ls, rs) in enumerate(res):
         s.evaluations += n
@@ -314,7 +314,7 @@ def run(ctx: Ctx):
         return RULE
 
     s = Stream(ctx, "(ii) permutations of list-valued arguments")
-    res = pmap(permutation_worker, [base + 7919 * i for i in range(1500 if quick else 30000)], ctx.jobs, chunk=50)
+    res = pmap(permutation_worker, [base + 7919 * i for i in range(ctx.size(1500, 30000))], ctx.jobs, chunk=50)
     for j, (fail, problems) in enumerate(res):
         s.evaluations += 1
         if fail:
@@ -325,7 +325,7 @@ def run(ctx: Ctx):
     s.finish()
 
     s = Stream(ctx, "(iv) shuffled directory enumeration and exclusion pattern order")
-    res = pmap(scan_order_worker, [base + 104729 * i for i in range(120 if quick else 2400)], ctx.jobs, chunk=5)
+    res = pmap(scan_order_worker, [base + 104729 * i for i in range(ctx.size(120, 2400))], ctx.jobs, chunk=5)
     for j, problems in enumerate(res):
         s.evaluations += 4
         s.nontrivial.add(j)
@@ -335,7 +335,7 @@ def run(ctx: Ctx):
     s.finish()
 
     s = Stream(ctx, "(iii) 8 interpreters with PYTHONHASHSEED = 0..7")
-    n = 150 if quick else 1500
+    n = ctx.size(150, 1500)
     procs = []
     for hs in range(8):
         env = dict(os.environ, PYTHONHASHSEED=str(hs))
